@@ -115,3 +115,603 @@ Section OtherFrame.
       apply (Hx s Hp).
   Qed.
 End OtherFrame.
+
+(* ---- the simulation invariant between the model state and the server's view ---- *)
+Definition Live (s : cli) (sv : sview) : Prop :=
+  eio_state s = EConnected /\ namespaces s = sv_acc sv /\ connected s = true /\
+  (sv_ever sv = true -> sv_acc sv <> []).
+Definition Dead (s : cli) (sv : sview) : Prop :=
+  connected s = false /\ namespaces s = [] /\ callbacks s = [] /\ binpkt s = None /\ sid s = PNone /\
+  eio_state s = EDisconnected /\ sv_acc sv = [].
+Definition Sim (s : cli) (sv : sview) : Prop := if sv_live sv then Live s sv else Dead s sv.
+
+Lemma list_eqb_refl' {A} (f : A -> A -> bool) : (forall x, f x x = true) -> forall l, list_eqb f l l = true.
+Proof. intros Hf l. induction l as [|x l IH]; [reflexivity|]. cbn [list_eqb]. rewrite Hf, IH. reflexivity. Qed.
+Lemma nsmap_eqb_refl l : nsmap_eqb l l = true.
+Proof.
+  unfold nsmap_eqb. rewrite (list_eqb_refl' (pair_eqb str_eqb pv_eqb)); [reflexivity|].
+  intros [a b]. unfold pair_eqb. cbn [fst snd]. rewrite str_eqb_refl, pv_eqb_refl. reflexivity.
+Qed.
+
+(* the invariant makes the mirror and reset clauses of the checker pass on the model's dump *)
+Lemma sim_state_ok s sv : Sim s sv -> c08_state sv (dump_of s) = O.
+Proof.
+  unfold Sim, c08_state, dump_of. cbn [d_namespaces d_connected d_eio d_cbs d_binpkt_none d_sid].
+  destruct (sv_live sv) eqn:Hl.
+  - intros (He & Hn & Hc & Hev). rewrite Hn, nsmap_eqb_refl, He, Hc. cbn [eiost_eqb andb].
+    destruct (sv_acc sv) eqn:Ea; [|reflexivity].
+    destruct (sv_ever sv); [exfalso; apply Hev; reflexivity|reflexivity].
+  - intros (Hc & Hn & Hcb & Hb & Hs & He & Ha). rewrite Hn, Ha, Hc, Hcb, Hb, Hs, He. cbn.
+    rewrite orb_true_r. reflexivity.
+Qed.
+
+Lemma step_st c s o : fst (step c s o) = st (step_m c o) s.
+Proof. unfold step, st. destruct (step_m c o s) as [[s' e] r]. reflexivity. Qed.
+Lemma st_api (m : CM unit) s : st (api m) s = st m s.
+Proof. unfold st, api. destruct (m s) as [[s1 e1] [a|x]]; reflexivity. Qed.
+Lemma st_then_tell {A} (m : CM A) (f : A -> eff) s : st (a <~ m ;; tell (f a)) s = st m s.
+Proof. apply st_bind_obliv. intro a. apply obliv_tell. Qed.
+Lemma st_then_ret {A} (m : CM A) s : st (_ <~ m ;; ret tt) s = st m s.
+Proof. apply st_bind_obliv. intro a. apply obliv_ret. Qed.
+
+(* the part of the state the mirror clause looks at, as a preserved predicate *)
+Definition Core (n : list (str * pv)) (b : bool) (e : eiost) (x : cli) : Prop :=
+  namespaces x = n /\ connected x = b /\ eio_state x = e.
+Lemma Core_binpkt n b e bp : pres (Core n b e) (set_binpkt bp).
+Proof. intros s H. exact H. Qed.
+Lemma Core_cb_drop n b e ns i : pres (Core n b e) (set_callbacks (fun cbs => drop_callback cbs ns i)).
+Proof. intros s H. exact H. Qed.
+Lemma Core_gen n b e ns cb : pres (Core n b e) (generate_ack_id ns cb).
+Proof. intros s H. exact H. Qed.
+Lemma Core_emit n b e ev data pns cb : pres (Core n b e) (api_emit ev data pns cb).
+Proof. apply pres_api_emit. apply Core_gen. Qed.
+Lemma live_core s sv s' :
+  Live s sv -> Core (namespaces s) (connected s) (eio_state s) s' -> Live s' sv.
+Proof. intros (He & Hn & Hc & Hev) (H1 & H2 & H3). repeat split; try congruence. exact Hev. Qed.
+Lemma core_self s : Core (namespaces s) (connected s) (eio_state s) s.
+Proof. repeat split. Qed.
+
+(* ---- emit / send / call ---- *)
+Lemma dead_emit s sv ev data pns cb : Dead s sv -> api_emit ev data pns cb s = (s, [], Err BadNamespaceError).
+Proof. intros (_ & Hn & _). apply bad_namespace_emit. rewrite Hn. reflexivity. Qed.
+
+Lemma call_core c ev data pns reply tbl s n b e :
+  Core n b e s ->
+  (forall s1 e1 id p enc, api_emit ev data pns (Some CbInt) s = (s1, e1, Ok (Some id)) ->
+     ctor true ACK (PList (match reply with Some r => r | None => [] end)) (Some (ns_or_default pns)) (Some (Z.of_N id)) None = Ok p ->
+     encode p = Ok enc -> reply <> None -> eio_state s1 = EConnected ->
+     classify s1 (PStr (fst enc)) tbl = SOther) ->
+  Core n b e (st (api_call c ev data pns reply tbl) s).
+Proof.
+  intros Hp Hside.
+  pose proof (Core_emit n b e ev data pns (Some CbInt) s Hp) as Hp1. unfold st in Hp1.
+  destruct (api_emit ev data pns (Some CbInt) s) as [[s1 e1] [oid|x]] eqn:Eem; cbn [fst] in Hp1;
+    [|unfold api_call, st; erewrite bind_eq_err by exact Eem; exact Hp1].
+  unfold api_call. unfold st at 1. erewrite bind_eq by exact Eem. cbn [fst].
+  destruct oid as [id|]; [|exact Hp1].
+  unfold st at 1.
+  rewrite getS_bind. rewrite bind_run.
+  match goal with |- context [listen ?m] => set (inner := m) end.
+  assert (Hin : Core n b e (st inner s1)).
+  { unfold inner. destruct reply as [r|]; [|exact Hp1].
+    destruct (eiost_eqb (eio_state s1) EConnected) eqn:He1; [|exact Hp1].
+    assert (He1' : eio_state s1 = EConnected) by (destruct (eio_state s1); try discriminate; reflexivity).
+    unfold st. destruct (ctor true ACK (PList r) (Some (ns_or_default pns)) (Some (Z.of_N id)) None) as [p|x] eqn:Ep;
+      [rewrite lift_ok_bind|exact Hp1].
+    destruct (encode p) as [enc|x] eqn:Ee; [rewrite lift_ok_bind|exact Hp1].
+    change (Core n b e (st (deliver c (PStr (fst enc)) tbl) s1)). rewrite (deliver_live c _ tbl s1 He1').
+    apply (other_frame (Core n b e) (Core_binpkt n b e) (Core_cb_drop n b e)); [|exact Hp1].
+    eapply (Hside s1 e1 id p enc); try eassumption; try reflexivity. discriminate. }
+  assert (Hl : st (listen inner) s1 = st inner s1).
+  { unfold st, listen. destruct (inner s1) as [[s2 e2] [a|x]]; reflexivity. }
+  destruct (rs (listen inner) s1) as [xa|x]; cbn [fst]; [|rewrite Hl; exact Hin].
+  rewrite Hl. destruct (find_intcb (ns_or_default pns) id (snd xa)); exact Hin.
+Qed.
+
+(* ---- the domain of the theorem: everything except the open finding class ---- *)
+Definition in_domain (s : cli) (sv : sview) (o : op) : bool :=
+  match o with
+  | CMsg payload tbl =>
+      if sv_live sv then
+        match classify s payload tbl with
+        | SError ns _ => negb (str_eqb ns slash) && negb (ahas str_eqb (sv_acc sv) ns)
+        | _ => true
+        end
+      else true
+  | _ => true
+  end.
+
+Lemma notify_end_some c reason ns calls :
+  notify_end c reason ns = Some calls ->
+  notify c ev_disconnect ns [reason] = Some calls /\ exists fl, notify c ev_final ns [] = Some fl.
+Proof. unfold notify_end. destruct (notify c ev_final ns []) as [fl|]; [|discriminate]. intro H. split; [exact H|eauto]. Qed.
+
+(* a DISCONNECT for a namespace that is not listed, while other namespaces are: handlers may run, the state stays *)
+Lemma disconnect_absent_core c pns s :
+  connected s = true -> ahas str_eqb (namespaces s) (ns_or_default pns) = false -> namespaces s <> [] ->
+  Core (namespaces s) (connected s) (eio_state s) (st (handle_disconnect c pns) s).
+Proof.
+  intros Hc Ha Hne. unfold handle_disconnect, st. rewrite getS_bind.
+  assert (Hg : negb (connected s) && negb (ahas str_eqb (namespaces s) (ns_or_default pns)) = false) by (rewrite Hc; reflexivity).
+  rewrite Hg. clear Hg.
+  destruct (trig_res c ev_disconnect (ns_or_default pns) [r_server_disconnect]) as [v1|x1] eqn:T1.
+  2:{ erewrite bind_eq_err by (rewrite trigger_run, T1; reflexivity). apply core_self. }
+  erewrite bind_eq by (rewrite trigger_run, T1; reflexivity). cbn [fst]. unfold st.
+  destruct (trig_res c ev_final (ns_or_default pns) []) as [v2|x2] eqn:T2.
+  2:{ erewrite bind_eq_err by (rewrite trigger_run, T2; reflexivity). apply core_self. }
+  erewrite bind_eq by (rewrite trigger_run, T2; reflexivity). cbn [fst]. unfold st, set_namespaces.
+  rewrite modify_bind, getS_bind. cbn [namespaces]. rewrite (adel_absent _ _ Ha).
+  destruct (namespaces s) as [|x d] eqn:En; [contradiction Hne; reflexivity|]. cbn. repeat split.
+Qed.
+
+Lemma msg_sim c s sv payload tbl v :
+  Sim s sv -> in_domain s sv (CMsg payload tbl) = true ->
+  view_step c s sv (dump_of s) (CMsg payload tbl) = Some v ->
+  Sim (st (deliver c payload tbl) s) (v_view v).
+Proof.
+  unfold Sim, in_domain. cbn [view_step]. destruct (sv_live sv) eqn:Hl; cbn [negb].
+  - (* the transport is up *)
+    intros HL Hdom Hv. pose proof HL as (He & Hn & Hc & Hev).
+    rewrite (deliver_live c payload tbl s He).
+    pose proof (classify_inv s payload tbl) as Hci.
+    destruct (classify s payload tbl) as [ns data|ns|ns data|] eqn:Hcl.
+    + (* CONNECT *)
+      destruct Hci as (r & Hb & Hd & Ht & -> & ->).
+      unfold st. rewrite (msg_connect c _ payload s r Hb Hd Ht). pose proof (mirror_connect c (pns (rp r)) (pdata (rp r)) s) as Hm.
+      cbv zeta in Hm. unfold st in Hm. rewrite Hm. clear Hm. rewrite Hn.
+      cbn [sv_packet] in Hv.
+      assert (Hv' : (if negb (ps_dom (sv_packet c (sid s) sv (SConnect (ns_or_default (pns (rp r))) (pdata (rp r)))))
+                     then Some (mkV (ps_view (sv_packet c (sid s) sv (SConnect (ns_or_default (pns (rp r))) (pdata (rp r))))) no_chk)
+                     else judged (ps_calls (sv_packet c (sid s) sv (SConnect (ns_or_default (pns (rp r))) (pdata (rp r)))))
+                            (fun calls => Some (mkV (ps_view (sv_packet c (sid s) sv (SConnect (ns_or_default (pns (rp r))) (pdata (rp r)))))
+                               (fun obs _ _ => flag (calls_eqb calls (calls_for c ev_names_all obs)) B_ONCE)))) = Some v).
+      { first [exact Hv | destruct (sv_acc sv); exact Hv]. }
+      clear Hv. cbn [sv_packet] in Hv'.
+      destruct (ahas str_eqb (sv_acc sv) (ns_or_default (pns (rp r)))).
+      * cbn in Hv'. injection Hv' as <-. cbn [v_view]. rewrite Hl. exact HL.
+      * destruct (connect_sid (pdata (rp r)) (sid s)) as [val|x].
+        -- cbn [ps_dom ps_calls ps_view negb] in Hv'. unfold judged in Hv'.
+           destruct (notify c ev_connect (ns_or_default (pns (rp r))) []); [|discriminate].
+           injection Hv' as <-. cbn [v_view sv_live]. rewrite Hl. repeat split; try assumption.
+           intros _. cbn [sv_acc]. apply aset_nonempty.
+        -- cbn in Hv'. injection Hv' as <-. cbn [v_view]. rewrite Hl. exact HL.
+    + (* DISCONNECT *)
+      destruct Hci as (r & Hb & Hd & H0 & Ht & ->).
+      unfold st. rewrite (msg_disconnect c _ payload s r Hb Hd H0 Ht).
+      destruct (sv_acc sv) as [|a0 acc0] eqn:Ea; [discriminate|]. rewrite <- Ea in *.
+      cbn [sv_packet] in Hv.
+      destruct (ahas str_eqb (sv_acc sv) (ns_or_default (pns (rp r)))) eqn:Hin.
+      * cbn [ps_dom ps_calls ps_view negb] in Hv. unfold judged in Hv.
+        destruct (notify_end c r_server_disconnect (ns_or_default (pns (rp r)))) as [calls|] eqn:Hne; [|discriminate].
+        destruct (notify_end_some _ _ _ _ Hne) as (Hn1 & fl & Hn2).
+        pose proof (mirror_disconnect_gen c (pns (rp r)) s calls fl He (or_introl Hc) Hn1 Hn2) as Hm. cbv zeta in Hm.
+        rewrite Hm. clear Hm. rewrite Hn. cbn [sv_acc] in Hv.
+        destruct (adel str_eqb (sv_acc sv) (ns_or_default (pns (rp r)))) as [|x d] eqn:Ed.
+        -- injection Hv as <-. cbn [v_view sv_live fst]. repeat split.
+        -- injection Hv as <-. cbn [v_view sv_live fst]. rewrite Hl. unfold with_namespaces. repeat split; try assumption.
+           cbn [sv_acc]. discriminate.
+      * cbn [ps_dom ps_view negb] in Hv. injection Hv as <-. cbn [v_view]. rewrite Hl.
+        eapply live_core; [exact HL|]. apply (disconnect_absent_core c (pns (rp r)) s); [exact Hc|rewrite Hn; exact Hin|rewrite Hn, Ea; discriminate].
+    + (* CONNECT_ERROR, for a namespace that is neither '/' nor accepted *)
+      destruct Hci as (r & Hb & Hd & Ht & -> & ->).
+      apply andb_true_iff in Hdom as [Hsl Hna]. apply negb_true_iff in Hsl, Hna.
+      unfold st. rewrite (msg_error c _ payload s r Hb Hd Ht).
+      assert (Hv' : judged (notify c ev_connect_error (ns_or_default (pns (rp r))) (error_args (pdata (rp r))))
+                      (fun calls => Some (mkV (mkSV (adel str_eqb (sv_acc sv) (ns_or_default (pns (rp r)))) (sv_live sv) (sv_req sv) false (sv_ever sv))
+                         (fun obs _ _ => flag (calls_eqb calls (calls_for c ev_names_all obs)) B_ONCE))) = Some v).
+      { cbn [sv_packet ps_dom ps_calls ps_view negb] in Hv. rewrite Hsl in Hv. first [exact Hv | destruct (sv_acc sv); exact Hv]. }
+      clear Hv. unfold judged in Hv'.
+      destruct (notify c ev_connect_error (ns_or_default (pns (rp r))) (error_args (pdata (rp r)))) as [calls|] eqn:Hne; [|discriminate].
+      injection Hv' as <-. cbn [v_view sv_live]. rewrite Hl.
+      pose proof (mirror_error c (pns (rp r)) (pdata (rp r)) s calls Hne) as Hm. cbv zeta in Hm. rewrite Hm. clear Hm.
+      rewrite Hsl. cbn [fst]. rewrite Hn, (adel_absent _ _ Hna). unfold with_namespaces. cbn [sv_acc sv_ever].
+      repeat split; try assumption.
+    + (* anything else *)
+      assert (Hv' : v = mkV sv no_chk) by (first [injection Hv as <-; reflexivity | destruct (sv_acc sv); injection Hv as <-; reflexivity]).
+      subst v. cbn [v_view]. rewrite Hl. eapply live_core; [exact HL|].
+      apply (other_frame _ (Core_binpkt _ _ _) (Core_cb_drop _ _ _) c payload tbl s Hcl (core_self s)).
+  - (* the transport is down: nothing is delivered *)
+    intros HD _ Hv. injection Hv as <-. cbn [v_view]. rewrite Hl.
+    destruct HD as (Hc & Hn & Hcb & Hb & Hs & He & Ha).
+    unfold st. rewrite (deliver_dead c payload tbl s He). repeat split; assumption.
+Qed.
+
+(* ---- emit / send / call, as operations ---- *)
+Lemma frames_pieces t data ns id : frames_of t data ns id = pieces t data ns id.
+Proof. reflexivity. Qed.
+
+Lemma emit_like_sim c s sv o v :
+  Sim s sv ->
+  match o with CEmit _ _ _ _ | CSend _ _ _ | CCall _ _ _ _ _ => True | _ => False end ->
+  view_step c s sv (dump_of s) o = Some v ->
+  Sim (st (step_m c o) s) (v_view v).
+Proof.
+  intros HS Ho Hv.
+  assert (Hview : v_view v = sv).
+  { destruct o; try contradiction; cbn [view_step] in Hv;
+      match type of Hv with (if ?b then None else _) = _ => destruct b; [discriminate|injection Hv as <-; reflexivity] end. }
+  rewrite Hview. unfold Sim in *. destruct (sv_live sv) eqn:Hl.
+  - (* live: only the callback table can change *)
+    eapply live_core; [exact HS|]. pose proof HS as (He & Hn & Hc & Hev).
+    destruct o as [| |ev data ns cb|data ns cb|ev data ns reply tbl| | |]; try contradiction; cbn [step_m].
+    + rewrite st_api, st_then_ret. apply Core_emit, core_self.
+    + rewrite st_api, st_then_ret. apply Core_emit, core_self.
+    + rewrite st_api, (st_then_tell (api_call c ev data ns reply tbl) Ret).
+      destruct (ahas str_eqb (namespaces s) (ns_or_default ns)) eqn:Hns.
+      2:{ unfold st. rewrite (bad_namespace_call c ev data ns reply tbl s Hns). apply core_self. }
+      apply call_core; [apply core_self|].
+      intros s1 e1 id p enc Hem Hp Henc Hrep He1.
+      destruct reply as [r|]; [|contradiction Hrep; reflexivity].
+      cbn [view_step] in Hv. rewrite Hl, <- Hn, Hns in Hv. cbn [andb] in Hv. rewrite Hem in Hv. cbn [fst snd] in Hv.
+      rewrite frames_pieces in Hv. unfold pieces in Hv. rewrite Hp in Hv. cbn [bind] in Hv. rewrite Henc in Hv.
+      cbn [bind pieces_of] in Hv.
+      destruct (classify s1 (PStr (fst enc)) tbl); cbn [is_other negb] in Hv; try discriminate. reflexivity.
+  - (* dead: BadNamespaceError, nothing changes *)
+    destruct o as [| |ev data ns cb|data ns cb|ev data ns reply tbl| | |]; try contradiction; cbn [step_m].
+    + rewrite st_api, st_then_ret. unfold st. rewrite (dead_emit s sv _ _ _ _ HS). exact HS.
+    + rewrite st_api, st_then_ret. unfold st. rewrite (dead_emit s sv _ _ _ _ HS). exact HS.
+    + rewrite st_api, (st_then_tell (api_call c ev data ns reply tbl) Ret). unfold st.
+      destruct HS as (Hc & Hn & Hrest). rewrite (bad_namespace_call c ev data ns reply tbl s); [repeat split; tauto|].
+      rewrite Hn. reflexivity.
+Qed.
+
+(* ---- the three ways a connection ends, state only ---- *)
+Lemma fold_opt_all {A} (f : A -> option (list (N * list pv))) l x :
+  fold_opt f l = Some x -> forall n, In n l -> exists y, f n = Some y.
+Proof.
+  revert x. induction l as [|a l IH]; intros x H n Hin; [destruct Hin|]. cbn [fold_opt fold_right] in H.
+  fold (fold_opt f l) in H. destruct (f a) as [y|] eqn:Ea; [|discriminate].
+  destruct (fold_opt f l) as [z|] eqn:El; [|discriminate]. destruct Hin as [<-|Hin]; [eauto|]. eapply IH; eauto.
+Qed.
+Lemma end_loop_run c reason nss s :
+  (forall n, In n nss -> exists y, notify_end c reason n = Some y) ->
+  exists E, forM nss (fun n => trigger_ c ev_disconnect n [reason] ;;; trigger_ c ev_final n []) s = (s, E, Ok tt).
+Proof.
+  induction nss as [|n r IH]; intro H; cbn [forM]; [eexists; reflexivity|].
+  destruct (H n (or_introl eq_refl)) as [y Hy]. destruct (notify_end_some _ _ _ _ Hy) as (H1 & fl & H2).
+  destruct IH as [E HE]; [intros m Hm; apply H; right; exact Hm|].
+  pose proof (trigger_notify c (s2l "disconnect") n [reason] y s H1) as T1.
+  pose proof (trigger_notify c (s2l "__disconnect_final") n [] fl s H2) as T2.
+  change (PStr (s2l "disconnect")) with ev_disconnect in T1. change (PStr (s2l "__disconnect_final")) with ev_final in T2.
+  assert (Hn : (trigger_ c ev_disconnect n [reason] ;;; trigger_ c ev_final n []) s = (s, to_calls y ++ to_calls fl, Ok tt)).
+  { erewrite bind_eq by exact T1. unfold st, ef, rs. cbv beta. rewrite T2. reflexivity. }
+  eexists. erewrite bind_eq by exact Hn. unfold st, ef, rs. cbv beta. rewrite HE. reflexivity.
+Qed.
+Lemma handle_eio_disconnect_state c reason s calls :
+  connected s = true -> fold_opt (notify_end c reason) (map fst (namespaces s)) = Some calls ->
+  exists E, handle_eio_disconnect c reason s = (cleared s, E, Ok tt).
+Proof.
+  intros Hc Hf. destruct (end_loop_run c reason (map fst (namespaces s)) s (fold_opt_all _ _ _ Hf)) as [E HE].
+  exists (E ++ []). unfold handle_eio_disconnect. rewrite getS_bind, Hc.
+  erewrite bind_eq.
+  2:{ erewrite bind_eq by exact HE. reflexivity. }
+  unfold st, ef, rs, cleared. cbn. rewrite Hc, !app_nil_r. reflexivity.
+Qed.
+Lemma eio_disconnect_state c reason s calls :
+  connected s = true -> eio_state s = EConnected ->
+  fold_opt (notify_end c (match reason with Some r => r | None => r_client_disconnect end)) (map fst (namespaces s)) = Some calls ->
+  st (eio_disconnect c reason) s = down s.
+Proof.
+  intros Hc He Hf. unfold eio_disconnect, st. rewrite getS_bind, He. cbn [eiost_eqb].
+  set (r := match reason with Some r => r | None => r_client_disconnect end) in *.
+  set (s1 := mkCli (connected s) (namespaces s) (conn_ns s) (conn_auth s) (callbacks s) (binpkt s) (sid s)
+                   EDisconnecting (eio_sid s) (eio_count s)).
+  destruct (handle_eio_disconnect_state c r s1 calls Hc Hf) as [E HE].
+  assert (H1 : contain (handle_eio_disconnect c r) s1 = (cleared s1, E, Ok tt)).
+  { unfold contain. rewrite HE. reflexivity. }
+  assert (Hin : (set_eio_state EDisconnecting ;;; contain (handle_eio_disconnect c r) ;;; set_eio_state EDisconnected) s
+                = (st (set_eio_state EDisconnected) (cleared s1), E ++ [], Ok tt)).
+  { unfold set_eio_state at 1. rewrite modify_bind. fold s1. erewrite bind_eq by exact H1. reflexivity. }
+  erewrite bind_eq by exact Hin.
+  unfold st, down, cleared, s1. cbn. rewrite Hc. reflexivity.
+Qed.
+
+Lemma frames_all_pieces t data nss w : frames_all t data nss = Some w -> pieces_all t data nss = Ok w.
+Proof.
+  revert w. induction nss as [|n r IH]; intros w H; cbn [frames_all fold_right pieces_all] in *.
+  - injection H as <-. reflexivity.
+  - fold (frames_all t data r) in H. rewrite frames_pieces in H. destruct (pieces t data n None) as [f|x]; [|discriminate].
+    destruct (frames_all t data r) as [l|]; [|discriminate]. injection H as <-. rewrite (IH l eq_refl). reflexivity.
+Qed.
+
+Lemma dead_eio_disconnect c reason s sv : Dead s sv -> Dead (st (eio_disconnect c reason) s) sv.
+Proof.
+  intros (Hc & Hn & Hcb & Hb & Hs & He & Ha). unfold eio_disconnect, st. rewrite getS_bind, He. cbn.
+  repeat split; assumption.
+Qed.
+
+Lemma ends_sim c s sv o v :
+  Sim s sv ->
+  match o with CDisconnect | CLoss | CServerClose => True | _ => False end ->
+  view_step c s sv (dump_of s) o = Some v ->
+  Sim (st (step_m c o) s) (v_view v).
+Proof.
+  intros HS Ho Hv. unfold Sim in *. destruct (sv_live sv) eqn:Hl.
+  - pose proof HS as (He & Hn & Hc & Hev).
+    destruct o; try contradiction; cbn [view_step step_m] in *; rewrite Hl in Hv; unfold judged in Hv.
+    + (* disconnect() *)
+      destruct (fold_opt (notify_end c r_client_disconnect) (map fst (sv_acc sv))) as [calls|] eqn:Hf; [|discriminate].
+      destruct (frames_all DISCONNECT PNone (map fst (sv_acc sv))) as [w|] eqn:Hw; [|discriminate].
+      injection Hv as <-. cbn [v_view sv_down sv_live].
+      rewrite st_api. unfold api_disconnect, st. rewrite getS_bind. rewrite <- Hn in Hf, Hw.
+      erewrite bind_eq by (apply (forM_send_all DISCONNECT PNone _ s w (frames_all_pieces _ _ _ _ Hw))).
+      cbn [fst]. rewrite (eio_disconnect_state c None s calls Hc He Hf). repeat split.
+    + (* transport lost *)
+      destruct (fold_opt (notify_end c r_transport_error) (map fst (sv_acc sv))) as [calls|] eqn:Hf; [|discriminate].
+      injection Hv as <-. cbn [v_view sv_down sv_live]. rewrite <- Hn in Hf.
+      unfold eio_loss, st. rewrite getS_bind, He. cbn [eiost_eqb].
+      destruct (handle_eio_disconnect_state c r_transport_error s calls Hc Hf) as [E HE].
+      erewrite bind_eq by (unfold contain; rewrite HE; reflexivity).
+      unfold st, cleared. cbn. rewrite Hc. repeat split.
+    + (* engine.io CLOSE *)
+      destruct (fold_opt (notify_end c r_server_disconnect) (map fst (sv_acc sv))) as [calls|] eqn:Hf; [|discriminate].
+      injection Hv as <-. cbn [v_view sv_down sv_live]. rewrite <- Hn in Hf.
+      unfold eio_server_close. unfold st at 1. rewrite getS_bind, He. cbn [eiost_eqb].
+      change (Dead (st (eio_disconnect c (Some r_server_disconnect)) s) (mkSV [] false (sv_req sv) false false)).
+      rewrite (eio_disconnect_state c (Some r_server_disconnect) s calls Hc He Hf). repeat split.
+  - pose proof HS as (Hc & Hn & Hcb & Hb & Hs & He & Ha).
+    destruct o; try contradiction; cbn [view_step step_m] in *; rewrite Hl in Hv; injection Hv as <-; cbn [v_view sv_down sv_live].
+    + rewrite st_api. unfold api_disconnect. unfold st at 1. rewrite getS_bind, Hn. cbn [map forM]. rewrite ret_bind.
+      apply (dead_eio_disconnect c None s (mkSV [] false (sv_req sv) false false)). repeat split; assumption.
+    + unfold eio_loss, st. rewrite getS_bind, He. cbn. repeat split; assumption.
+    + unfold eio_server_close, st. rewrite getS_bind, He. cbn. repeat split; assumption.
+Qed.
+
+(* ---- connect(): the wait window ---- *)
+Lemma deliver_rs_ok c payload tbl s : rs (deliver c payload tbl) s = Ok tt.
+Proof.
+  unfold rs, deliver. rewrite getS_bind. destruct (eiost_eqb (eio_state s) EConnected); [|reflexivity].
+  unfold contain. destruct (handle_eio_message c (table_loads tbl) payload s) as [[? ?] ?]. reflexivity.
+Qed.
+Lemma st_window_cons c m r s :
+  st (forM (m :: r) (fun m => deliver c (fst m) (snd m))) s
+  = st (forM r (fun m => deliver c (fst m) (snd m))) (st (deliver c (fst m) (snd m)) s).
+Proof. cbn [forM]. unfold st at 1. rewrite bind_run, deliver_rs_ok. reflexivity. Qed.
+Lemma window_dead c w s : eio_state s = EDisconnected -> st (forM w (fun m => deliver c (fst m) (snd m))) s = s.
+Proof.
+  intro He. induction w as [|m r IH]; [reflexivity|]. rewrite st_window_cons.
+  unfold st at 2. rewrite (deliver_dead c (fst m) (snd m) s He). exact IH.
+Qed.
+
+Definition WN (req : list str) (n : list (str * pv)) (s : cli) : Prop := W req s /\ namespaces s = n.
+Lemma WN_binpkt req n b : pres (WN req n) (set_binpkt b).
+Proof. intros s H. exact H. Qed.
+Lemma WN_cb_drop req n ns i : pres (WN req n) (set_callbacks (fun cbs => drop_callback cbs ns i)).
+Proof. intros s H. exact H. Qed.
+
+Lemma opt_app_some {A} (a b : option (list A)) x : opt_app a b = Some x -> exists y z, a = Some y /\ b = Some z.
+Proof. destruct a, b; try discriminate. eauto. Qed.
+
+Lemma W_with_namespaces req s d : W req s -> W req (with_namespaces s d).
+Proof. intros (H1 & H2 & H3). repeat split; assumption. Qed.
+
+(* one packet of the window: the model and the server's view move together *)
+Lemma packet_sim c req s sv payload tbl :
+  W req s -> namespaces s = sv_acc sv ->
+  let p := classify s payload tbl in
+  let stp := sv_packet c (sid s) sv p in
+  let s' := st (deliver c payload tbl) s in
+  win_here p stp <> None ->
+  if win_stop p stp then Wd req s' /\ sv_acc (ps_view stp) = []
+  else W req s' /\ namespaces s' = sv_acc (ps_view stp).
+Proof.
+  intros HW Hn. cbv zeta. pose proof HW as (Hc & He & Hr).
+  pose proof (classify_inv s payload tbl) as Hci.
+  rewrite (deliver_live c payload tbl s He).
+  destruct (classify s payload tbl) as [ns data|ns|ns data|] eqn:Hcl.
+  - (* CONNECT *)
+    destruct Hci as (rr & Hb & Hd & Ht & -> & ->). intros _.
+    unfold st. rewrite (msg_connect c _ payload s rr Hb Hd Ht).
+    pose proof (mirror_connect c (pns (rp rr)) (pdata (rp rr)) s) as Hm. cbv zeta in Hm. unfold st in Hm. rewrite Hm. clear Hm.
+    rewrite Hn. unfold win_stop, win_ended. cbn [is_disc andb sv_packet].
+    destruct (ahas str_eqb (sv_acc sv) (ns_or_default (pns (rp rr)))); [split; assumption|].
+    destruct (connect_sid (pdata (rp rr)) (sid s)) as [val|x]; cbn [ps_view sv_acc]; [|split; assumption].
+    split; [apply W_with_namespaces, HW|reflexivity].
+  - (* DISCONNECT *)
+    destruct Hci as (rr & Hb & Hd & H0 & Ht & ->).
+    unfold st. rewrite (msg_disconnect c _ payload s rr Hb Hd H0 Ht).
+    unfold win_stop, win_ended, win_here. cbn [is_disc andb sv_packet].
+    destruct (ahas str_eqb (sv_acc sv) (ns_or_default (pns (rp rr)))) eqn:Hin; cbn [ps_dom ps_calls ps_view sv_acc andb].
+    + destruct (notify_end c r_server_disconnect (ns_or_default (pns (rp rr)))) as [calls|] eqn:Hne; [|intro H; contradiction H; reflexivity].
+      intros _. destruct (notify_end_some _ _ _ _ Hne) as (Hn1 & fl & Hn2).
+      assert (Hg : connected s = true \/ ahas str_eqb (namespaces s) (ns_or_default (pns (rp rr))) = true) by (right; rewrite Hn; exact Hin).
+      pose proof (mirror_disconnect_gen c (pns (rp rr)) s calls fl He Hg Hn1 Hn2) as Hm. cbv zeta in Hm. rewrite Hm. clear Hm.
+      rewrite Hn. destruct (adel str_eqb (sv_acc sv) (ns_or_default (pns (rp rr)))) as [|x d] eqn:Ed; cbn [fst].
+      * split; [|reflexivity]. unfold Wd, down. cbn. repeat split; assumption.
+      * split; [apply W_with_namespaces, HW|reflexivity].
+    + intros _. rewrite (mirror_disconnect_unknown c (pns (rp rr)) s Hc); [split; assumption|rewrite Hn; exact Hin].
+  - (* CONNECT_ERROR *)
+    destruct Hci as (rr & Hb & Hd & Ht & -> & ->).
+    unfold st. rewrite (msg_error c _ payload s rr Hb Hd Ht).
+    unfold win_stop, win_ended, win_here. cbn [is_disc andb sv_packet ps_dom ps_calls ps_view sv_acc].
+    destruct (notify c ev_connect_error (ns_or_default (pns (rp rr))) (error_args (pdata (rp rr)))) as [calls|] eqn:Hne;
+      [|intro H; contradiction H; reflexivity].
+    intros _. pose proof (mirror_error c (pns (rp rr)) (pdata (rp rr)) s calls Hne) as Hm. cbv zeta in Hm. rewrite Hm. clear Hm.
+    cbn [fst]. destruct (str_eqb (ns_or_default (pns (rp rr))) slash).
+    + split; [|reflexivity]. repeat split; assumption.
+    + split; [apply W_with_namespaces, HW|]. cbn. rewrite Hn. reflexivity.
+  - (* anything else *)
+    intros _. unfold win_stop, win_ended. cbn [is_disc andb sv_packet ps_view].
+    pose proof (other_frame (WN req (sv_acc sv)) (WN_binpkt req _) (WN_cb_drop req _) c payload tbl s Hcl (conj HW Hn)) as [H1 H2].
+    split; assumption.
+Qed.
+
+Lemma window_sim c req : forall window s sv sv1 calls disc,
+  W req s -> namespaces s = sv_acc sv ->
+  sv_window c s sv window = (sv1, Some calls, disc) ->
+  let s1 := st (forM window (fun m => deliver c (fst m) (snd m))) s in
+  (W req s1 /\ namespaces s1 = sv_acc sv1) \/ (Wd req s1 /\ sv_acc sv1 = []).
+Proof.
+  induction window as [|[payload tbl] r IH]; intros s sv sv1 calls disc HW Hn Hsw; cbv zeta.
+  - cbn in Hsw. injection Hsw as <- _ _. left. split; assumption.
+  - rewrite st_window_cons. cbn [fst snd]. cbn [sv_window] in Hsw.
+    pose proof (packet_sim c req s sv payload tbl HW Hn) as Hp. cbv zeta in Hp.
+    destruct (win_stop (classify s payload tbl) (sv_packet c (sid s) sv (classify s payload tbl))) eqn:Hstop.
+    + injection Hsw as <- Hh _. destruct Hp as [HWd Ha]; [rewrite Hh; discriminate|].
+      right. rewrite (window_dead c r _ (proj1 (proj2 (proj2 HWd)))). split; assumption.
+    + destruct (sv_window c (fst (fst (deliver c payload tbl s))) (ps_view (sv_packet c (sid s) sv (classify s payload tbl))) r)
+        as [[sv' calls'] disc'] eqn:Er.
+      injection Hsw as <- Hc' _. destruct (opt_app_some _ _ _ Hc') as (y & z & Hy & ->).
+      destruct Hp as [HW' Hn']; [rewrite Hy; discriminate|].
+      exact (IH _ _ _ _ _ HW' Hn' Er).
+Qed.
+
+(* ---- connect() ---- *)
+Lemma pieces_disconnect_ok n : exists l, pieces DISCONNECT PNone n None = Ok l.
+Proof. eexists. unfold pieces, ctor, encode. cbn. reflexivity. Qed.
+Lemma pieces_all_disconnect_ok nss : exists d, pieces_all DISCONNECT PNone nss = Ok d.
+Proof.
+  induction nss as [|n r [d IH]]; [eexists; reflexivity|]. cbn [pieces_all].
+  destruct (pieces_disconnect_ok n) as [l Hl]. rewrite Hl, IH. eexists. reflexivity.
+Qed.
+
+Lemma obliv_forM {A} (l : list A) (f : A -> CM unit) : (forall x, obliv (f x)) -> obliv (forM l f).
+Proof.
+  intro Hf. induction l as [|x l IH]; [apply obliv_ret|]. cbn [forM]. apply obliv_bind; [apply Hf|intro; exact IH].
+Qed.
+Lemma connect_begin_fails c nss auth s :
+  connected s = false -> eio_state s = EDisconnected ->
+  let req := match nss with None => derived_namespaces c | Some x => x end in
+  st (connect_begin c nss auth true) s
+  = mkCli false [] req auth (callbacks s) (binpkt s) (sid s) EDisconnected (eio_sid s) (eio_count s) /\
+  exists x, rs (connect_begin c nss auth true) s = Err x.
+Proof.
+  intros Hc He req. unfold connect_begin. fold req.
+  set (tail := forM req (fun n => trigger_ c ev_connect_error n [eio_error_message]) ;;; raise ConnectionError : CM unit).
+  assert (Ho : obliv tail).
+  { unfold tail. apply obliv_bind; [apply obliv_forM; intro; apply obliv_trigger_|intro; apply obliv_raise]. }
+  assert (Hr : forall s0, exists x, rs tail s0 = Err x).
+  { intro s0. unfold tail, rs. rewrite bind_run. destruct (rs (forM req (fun n => trigger_ c ev_connect_error n [eio_error_message])) s0);
+      cbn [snd]; [exists ConnectionError; reflexivity|eexists; reflexivity]. }
+  unfold st, rs. rewrite getS_bind, Hc. unfold set_conn. rewrite modify_bind. unfold set_namespaces. rewrite modify_bind, getS_bind.
+  cbn [eio_state]. rewrite He. cbn [eiost_eqb negb]. fold tail.
+  split.
+  - match goal with |- fst (fst (tail ?x)) = _ => change (fst (fst (tail x))) with (st tail x) end.
+    rewrite (obliv_st tail Ho). cbn. rewrite ?Hc, ?He. reflexivity.
+  - apply Hr.
+Qed.
+
+Lemma set_eqb_nonempty a req : req <> [] -> set_eqb a req = true -> a <> [].
+Proof. intros Hr H Ha. subst a. rewrite (set_eqb_nil_l req Hr) in H. discriminate. Qed.
+
+Lemma connect_sim c s sv nss auth ac wait eio_fails window v :
+  Sim s sv ->
+  view_step c s sv (dump_of s) (CConnect nss auth ac wait eio_fails window) = Some v ->
+  Sim (st (api_connect c nss auth wait eio_fails window) s) (v_view v).
+Proof.
+  intros HS Hv. unfold Sim in HS. cbn [view_step] in Hv. destruct (sv_live sv) eqn:Hl.
+  - (* already connected *)
+    destruct HS as (He & Hn & Hc & Hev). cbn [dump_of d_connected] in Hv. rewrite Hc in Hv. injection Hv as <-. cbn [v_view].
+    unfold Sim. rewrite Hl. unfold api_connect, st. erewrite bind_eq_err.
+    2:{ unfold connect_begin. rewrite getS_bind, Hc. reflexivity. }
+    repeat split; assumption.
+  - pose proof HS as (Hc & Hn & Hcb & Hb & Hs & He & Ha).
+    cbn [dump_of d_eio] in Hv. rewrite He in Hv. cbn [eiost_eqb negb] in Hv.
+    set (req := match nss with None => derived_namespaces c | Some l => l end) in *.
+    destruct req as [|r0 rq] eqn:Ereq; [discriminate|]. rewrite <- Ereq in *.
+    assert (Hreq : req <> []) by (rewrite Ereq; discriminate).
+    destruct eio_fails.
+    + (* the transport does not come up *)
+      unfold judged in Hv. destruct (fold_opt _ req); [|discriminate]. injection Hv as <-. cbn [v_view]. unfold Sim. cbn [sv_live].
+      destruct (connect_begin_fails c nss auth s Hc He) as [Hst [x Hrs]]. fold req in Hst.
+      unfold api_connect, st. erewrite bind_eq_err by (rewrite (run_eta (connect_begin c nss auth true) s), Hrs; reflexivity).
+      cbn [fst]. rewrite Hst. repeat split; assumption.
+    + unfold judged in Hv.
+      destruct (frames_all CONNECT (if truthy auth then auth else PDict []) req) as [w|] eqn:Hw; [|discriminate].
+      pose proof (frames_all_pieces _ _ _ _ Hw) as Hpw. fold (auth_value auth) in Hpw.
+      pose proof (connect_sends c s nss auth w Hc He Hpw) as Hcb1. fold req in Hcb1.
+      rewrite Hcb1 in Hv. cbn [fst] in Hv.
+      destruct wait.
+      * (* wait=True *)
+        destruct (sv_window c (opened s req auth) (mkSV [] true req true false) window) as [[sv1 ocalls] disc] eqn:Esw.
+        destruct ocalls as [calls|]; [|discriminate].
+        pose proof (window_sim c req window (opened s req auth) (mkSV [] true req true false) sv1 calls disc
+                      (W_opened s req auth) eq_refl Esw) as Hws.
+        cbv zeta in Hws.
+        pose proof (wait_all_or_error c s nss auth window w Hc He) as Hwa. cbv zeta in Hwa. fold req in Hwa.
+        specialize (Hwa Hreq Hpw). destruct Hwa as (_ & Hok & Hfail).
+        set (s1 := st (forM window (fun m => deliver c (fst m) (snd m))) (opened s req auth)) in *.
+        assert (Hsame : set_eqb (map fst (namespaces s1)) req = set_eqb (map fst (sv_acc sv1)) req).
+        { destruct Hws as [[_ H]|[(_ & _ & _ & H & _) H2]]; [rewrite H; reflexivity|rewrite H, H2; reflexivity]. }
+        destruct (set_eqb (map fst (sv_acc sv1)) req) eqn:Eset.
+        -- injection Hv as <-. cbn [v_view]. unfold Sim. cbn [sv_live].
+           destruct (Hok Hsame) as (HW1 & _ & Hst). rewrite Hst.
+           destruct Hws as [[_ Hns]|[_ H2]].
+           ++ destruct HW1 as (_ & He1 & _). repeat split; try assumption. cbn [sv_acc sv_ever]. intros _.
+              intro Hx. rewrite Hx in Eset. cbn [map] in Eset. rewrite (set_eqb_nil_l req Hreq) in Eset. discriminate.
+           ++ rewrite H2 in Eset. cbn [map] in Eset. rewrite (set_eqb_nil_l req Hreq) in Eset. discriminate.
+        -- injection Hv as <-. cbn [v_view]. unfold Sim. cbn [sv_live].
+           destruct (pieces_all_disconnect_ok (map fst (namespaces s1))) as [d Hd].
+           destruct (Hfail Hsame d Hd) as (_ & Hst & _). rewrite Hst. repeat split.
+      * (* wait=False *)
+        injection Hv as <-. cbn [v_view]. unfold Sim. cbn [sv_live].
+        unfold api_connect, st. erewrite bind_eq by exact Hcb1. cbn [fst]. unfold st. rewrite ret_bind. cbn.
+        repeat split. intro H; discriminate.
+Qed.
+
+(* ---- every operation, then every history ---- *)
+Lemma step_sim c s sv o v :
+  Sim s sv -> in_domain s sv o = true -> view_step c s sv (dump_of s) o = Some v ->
+  Sim (fst (step c s o)) (v_view v).
+Proof.
+  intros HS Hd Hv. rewrite step_st.
+  destruct o as [nss auth ac wait ef0 window|payload tbl|ev data ns cb|data ns cb|ev data ns reply tbl| | |].
+  - cbn [step_m]. rewrite st_api.
+    rewrite (st_bind_obliv (api_connect c nss auth wait ef0 window) (fun _ => tell (Ret PNone)) s) by (intro; apply obliv_tell).
+    apply (connect_sim c s sv nss auth ac wait ef0 window v HS Hv).
+  - cbn [step_m]. apply (msg_sim c s sv payload tbl v HS Hd Hv).
+  - apply (emit_like_sim c s sv (CEmit ev data ns cb) v HS I Hv).
+  - apply (emit_like_sim c s sv (CSend data ns cb) v HS I Hv).
+  - apply (emit_like_sim c s sv (CCall ev data ns reply tbl) v HS I Hv).
+  - apply (ends_sim c s sv CDisconnect v HS I Hv).
+  - apply (ends_sim c s sv CLoss v HS I Hv).
+  - apply (ends_sim c s sv CServerClose v HS I Hv).
+Qed.
+
+(* the mirror + reset clauses of the C08 checker along the model's own run, up to the first operation
+   that leaves the domain *)
+Fixpoint mirror_run (c : cfg) (s : cli) (sv : sview) (ops : list op) : bool :=
+  match ops with
+  | [] => true
+  | o :: r =>
+      if negb (in_domain s sv o) then true else
+      match view_step c s sv (dump_of s) o with
+      | None => true
+      | Some v =>
+          Nat.eqb (c08_state (v_view v) (dump_of (fst (step c s o)))) O &&
+          mirror_run c (fst (step c s o)) (v_view v) r
+      end
+  end.
+Lemma mirror_from c ops : forall s sv, Sim s sv -> mirror_run c s sv ops = true.
+Proof.
+  induction ops as [|o r IH]; intros s sv HS; [reflexivity|]. cbn [mirror_run].
+  destruct (in_domain s sv o) eqn:Hd; [|reflexivity]. cbn [negb].
+  destruct (view_step c s sv (dump_of s) o) as [v|] eqn:Hv; [|reflexivity].
+  pose proof (step_sim c s sv o v HS Hd Hv) as HS'.
+  rewrite (sim_state_ok _ _ HS'), (IH _ _ HS'). reflexivity.
+Qed.
+Lemma sim_init : Sim cli_init sv_init.
+Proof. repeat split. Qed.
+
+(* C08 mirror, history level: for every configuration and every history of client operations and server
+   packets, after every operation the client's `namespaces` (keys and sids) equals the set of namespaces
+   the server has accepted and not ended, `connected` is set while one remains and cleared when the last
+   one ended or the transport is down, and nothing (callbacks, binary packet, sid) survives the end of
+   the transport - as long as the history stays in the domain (no handler raises, packets conform to
+   the protocol, and no CONNECT_ERROR for '/' or for an accepted namespace arrives after connect()
+   returned: the open finding class) *)
+Theorem mirror_history c ops : mirror_run c cli_init sv_init ops = true.
+Proof. apply mirror_from, sim_init. Qed.
+
+(* ... which is exactly what the checker computes on the model's run: a history whose model run is
+   flagged for the mirror or reset clause has left that domain *)
+Example mirror_run_nontrivial :
+  mirror_run cfg_w cli_init sv_init witness_clean = true /\
+  mirror_run cfg_w cli_init sv_init witness_window_disconnect = true /\
+  mirror_run cfg_w cli_init sv_init witness_partial = true.
+Proof. repeat split; apply mirror_history. Qed.
+
+Lemma mirror_step c s sv o v :
+  Sim s sv -> in_domain s sv o = true -> view_step c s sv (dump_of s) o = Some v ->
+  Sim (fst (step c s o)) (v_view v) /\ c08_state (v_view v) (dump_of (fst (step c s o))) = O.
+Proof. intros HS Hd Hv. split; [|apply sim_state_ok]; apply (step_sim c s sv o v HS Hd Hv). Qed.
